@@ -949,7 +949,7 @@ void
 qb_log_target_free(struct qb_log_target *t)
 {
 	(void)qb_log_filter_ctl(t->pos, QB_LOG_FILTER_CLEAR_ALL,
-				QB_LOG_FILTER_FILE, NULL, 0);
+				QB_LOG_FILTER_FILE, "*", 0);
 	t->debug = QB_FALSE;
 	t->filename[0] = '\0';
 	qb_log_format_set(t->pos, NULL);
